@@ -277,9 +277,9 @@ theorem reclaim_keeps_referenced (st : State) (c : Nat) (s : Sess) (h : st.sess 
   rw [if_neg (by omega)]
 
 /-- … and a new entry takes a reference (coap_session_reference in coap_add_observer).
-    FULL STATEMENT (not proved here, checked by T2 on every event of every history: the `S<c>=ref` field of the state
-    dump): for all event sequences, `ref c = #entries of c in all resources + #send-queue nodes of c`, hence ≥ 1 while an
-    entry refers to the session, hence — by `reclaim_keeps_referenced` — the session object exists. -/
+    FULL STATEMENT: for all event sequences, `ref c = #entries of c in all resources + #send-queue nodes of c`, hence ≥ 1 while
+    an entry refers to the session, hence — by `reclaim_keeps_referenced` — the session object exists.  Now PROVED as a global
+    invariant: `ref_eq_holders`, `session_alive_while_observed`, `idle_reclaim_keeps_observed` below (this local lemma is kept). -/
 theorem session_alive_while_observed_partial (st : State) (r c tok key : Nat) (x : Res) (hx : findRes st r = some x)
     (hnew : x.subs.any (matchST c tok) = false) (hkey : x.subs.find? (matchSK c key) = none) :
     ((addObserver st r c tok key).sess c).map (·.ref) = some ((getSess st c).ref + 1) := by
@@ -465,6 +465,31 @@ example : ∀ e ∈ runEvents.tail, ¬ RegEv e 0 0 1 := by
   subst h
   simp [runEvents] at he
 example : (notificationsTo 0 0 1 (run runStart runEvents).2).map isConOut = [false, false, false, false, false, true, false] := by decide
+
+/-- every_sixth_con from an INITIAL state, no invariant hypothesis left: after any prefix `pre`, over any continuation `evs`
+    within one registration epoch of (c, tok) on rid -/
+theorem every_sixth_con_run_init (res : List Res) (stTicks : Nat) (pre evs : List Event) (rid c tok : Nat)
+    (hids : (res.map (·.id)).Nodup) (hsubs : ∀ y ∈ res, y.subs = []) (hflag : ∀ y ∈ res, y.id = rid → y.fNonAlways = false)
+    (hepoch : ∀ e ∈ evs, ¬ RegEv e rid c tok) :
+    ∀ p w q, (notificationsTo rid c tok (run (run (init res stTicks) pre).1 evs).2).map isConOut = p ++ w ++ q →
+      w.length = obsMaxNon + 1 → true ∈ w := by
+  have hid0 : IdsNodup (init res stTicks) := hids
+  have hnd0 : NoDupSt (init res stTicks) := by
+    intro y hy; unfold NoDup; rw [hsubs y hy]; exact List.Pairwise.nil
+  have hflags : ∀ y ∈ (run (init res stTicks) pre).1.res, y.id = rid → y.fNonAlways = false := by
+    have := run_resInv (Q := fun y _ => y.id = rid → y.fNonAlways = false) (fun _ => True)
+      (fun e _ y o y' _ hq hm hy' => by rw [hm.fixed.2.2]; exact hq (hm.fixed.1 ▸ hy'))
+      pre (init res stTicks) [] hid0 (fun _ _ => trivial) (fun y hy => hflag y hy)
+    exact this
+  refine every_sixth_con_run _ evs rid c tok (run_idsNodup _ pre hid0) ?_ hepoch
+  intro y hy hyid
+  exact ⟨run_noDup pre _ hnd0 y hy, hflags y hy hyid,
+    run_nonCntOk _ pre hid0 (fun z hz o ho => by rw [hsubs z hz] at ho; cases ho) y hy⟩
+
+example : ∀ e ∈ ([.chg 0, .adv 0, .chg 0, .adv 0] : List Event), ¬ RegEv e 0 0 1 := by
+  intro e he ⟨key, con, mid, h⟩
+  subst h
+  simp at he
 
 /-! ### GLOBAL: the session stays alive while it has observers -/
 /-- session_alive_while_observed, FULL: `ref(session) = #observer entries of it in all resources + #its queued nodes` (application
